@@ -86,6 +86,8 @@ def gen_world(seed, tier):
     if empty_universe:
         universe = []                    # nothing to cover: the empty cover is the optimum
         subsets = [list(s_) for s_ in subsets[:2]]
+    if not subsets:
+        subsets = [[0]]        # a model without any subset has no variable at all (HiGHS: kModelEmpty): not an instance
     args = {"universe": universe, "subsets": subsets, "solver_options": {}}
     if rng.random() < 0.7:
         args["subset_weights"] = [rng.choice([1, 1, 2, 3, 0.5, 2.5]) for _ in subsets]
